@@ -104,6 +104,8 @@ def cases(rng, tier):
         yield gen_chain(rng, rng.choice(kinds))
     for _ in range(fw.tier_scale(tier, 600, 6000)):
         yield C28.gen_script(rng, raise_p=0.0)
+    for _ in range(fw.tier_scale(tier, 60, 600)):
+        yield C28.gen_multi_start(rng)
 
 
 model_request = vc.model_request
